@@ -254,6 +254,12 @@ func JNumInt(tok []byte) (int64, bool) {
 	return v, err == nil
 }
 
+// JNumUint returns the unsigned integer denoted by a JSON number token (or the content of a quoted key).
+func JNumUint(tok []byte) (uint64, bool) {
+	v, err := strconv.ParseUint(string(tok), 10, 64)
+	return v, err == nil
+}
+
 // JNumFloatBits returns the float64 bits denoted by a JSON number token.
 func JNumFloatBits(tok []byte) (uint64, bool) {
 	v, err := strconv.ParseFloat(string(tok), 64)
